@@ -1815,6 +1815,13 @@ fn make_subject(root: &Op, cx: &mut Cx) -> Option<Box<dyn Subject>> {
 
 /// Run one trace. `props` selects which properties' invariants are evaluated.
 pub fn execute(root: &Op, props: u32, stats_on: bool) -> RunResult {
+    execute_mode(root, props, stats_on, false)
+}
+
+/// `final_only`: for histories longer than 512 operations observe only the initial and the final
+/// state (used by the minimiser on prefixes that end at the violating step: every invariant is a
+/// function of the state reached, so the verdict at the last step is the one that matters).
+pub fn execute_mode(root: &Op, props: u32, stats_on: bool, final_only: bool) -> RunResult {
     let mut cx = Cx::new(props, root.k);
     cx.stats_on = stats_on;
     let obs_seed = root.arg(1);
@@ -1898,14 +1905,15 @@ pub fn execute(root: &Op, props: u32, stats_on: bool) -> RunResult {
         }
         let near = |x: u64, w: u64, sh: u32| -> bool { ((x + w) >> sh) != (x.saturating_sub(w) >> sh) };
         let must = total <= 512
-            || i < 300
+            || i + 1 == total
+            || if final_only { false } else { i < 300
             || i + 1 == total
             || near(len1, 3 * (len1 - len0).max(1), 16)
             || near(cnt1, 3, 16)
             || near(len1, 3 * (len1 - len0).max(1), 24)
             // sampled observations thin out as the image grows (cost per observation is linear in it)
             || ((near(len1, 2 * (len1 - len0).max(1), 8) || near(cnt1, 2, 8)) && mix(obs_seed, len1 >> 8) % (16 * (1 + len1 / 65_536)) == 0)
-            || mix(obs_seed, i as u64) % (128 * (1 + len1 / 65_536)) == 0;
+            || mix(obs_seed, i as u64) % (128 * (1 + len1 / 65_536)) == 0 };
         if must && !cx.stop {
             observe(&mut subj, &mut cx, obs_seed, &mut last_img);
         } else {
